@@ -28,7 +28,8 @@
    functionally inside the thread's remaining computation [comp].  A thread is a tree
    of operations on [glob] with [Yield] nodes where another thread may be scheduled.
    No proofs here. *)
-From Coq Require Import ZArith List Bool String.
+From Coq Require Import ZArith List Bool.
+From Coq Require String.
 Import ListNotations.
 From Verif Require Import Base.Out.
 Open Scope Z_scope.
@@ -38,7 +39,7 @@ Open Scope Z_scope.
 
 Inductive cell_id :=
 | CBalanceCache                 (* functools cache on query_env.balance *)
-| CUnknown (name : string).     (* any other process-wide cache / container written at query time *)
+| CUnknown (name : String.string).     (* any other process-wide cache / container written at query time *)
 
 Definition is_balance_cache (c : cell_id) : bool :=
   match c with CBalanceCache => true | _ => false end.
@@ -86,6 +87,7 @@ Inductive expr :=
 | EYield (e : expr)                         (* vyield(e): harness function, returns e, yield point *)
 | EUnknown (e : expr)                       (* nosuchfn(e): a name absent from the registry *)
 | EEmpty (e : expr)                         (* empty(inventory) *)
+| ENullOdd (e : expr)                       (* vnullodd(e): harness function, NULL when e is odd, else e *)
 | EAdd (a b : expr)
 | ELt (a b : expr)
 | EAnd (a b : expr)
@@ -127,7 +129,7 @@ Record glob := mkG {
 
 Inductive comp (A : Type) :=
 | Ret (a : A)
-| Yield (k : comp A)
+| Yield (tag : Z) (k : comp A)           (* a point where another thread may run; tag = value passed to vyield *)
 | GetCache (k : option (ckey * Z) -> comp A)
 | PutCache (v : ckey * Z) (k : comp A)
 | GetStmt (s : nat) (k : option (list phname) -> comp A)
@@ -139,7 +141,7 @@ Arguments GetStmt {A}. Arguments PutStmt {A}. Arguments GetReg {A}.
 Fixpoint bind {A B} (c : comp A) (f : A -> comp B) : comp B :=
   match c with
   | Ret a => f a
-  | Yield k => Yield (bind k f)
+  | Yield t k => Yield t (bind k f)
   | GetCache k => GetCache (fun x => bind (k x) f)
   | PutCache v k => PutCache v (bind k f)
   | GetStmt s k => GetStmt s (fun x => bind (k x) f)
@@ -163,7 +165,7 @@ Fixpoint upsert {V} (k : nat) (v : V) (l : list (nat * V)) : list (nat * V) :=
 Fixpoint to_yield {A} (c : comp A) (g : glob) : comp A * glob :=
   match c with
   | Ret a => (Ret a, g)
-  | Yield k => (k, g)
+  | Yield _ k => (k, g)
   | GetCache k => to_yield (k (g_cache g)) g
   | PutCache v k => to_yield k (mkG (Some v) (g_stmts g) (g_reg g))
   | GetStmt s k => to_yield (k (lookup s (g_stmts g))) g
@@ -175,7 +177,7 @@ Fixpoint to_yield {A} (c : comp A) (g : glob) : comp A * glob :=
 Fixpoint to_end {A} (c : comp A) (g : glob) : A * glob :=
   match c with
   | Ret a => (a, g)
-  | Yield k => to_end k g
+  | Yield _ k => to_end k g
   | GetCache k => to_end (k (g_cache g)) g
   | PutCache v k => to_end k (mkG (Some v) (g_stmts g) (g_reg g))
   | GetStmt s k => to_end (k (lookup s (g_stmts g))) g
@@ -210,6 +212,50 @@ Fixpoint drain {A} (ts : list (comp A)) (g : glob) : list A * glob :=
 Definition run_state {A} (sched : list nat) (st : sstate A) : list A * glob :=
   let st' := fold_left step sched st in drain (fst st') (snd st').
 
+(* Ghost trace, used by the correspondence only: (thread, tag) of every yield point
+   passed, in global order (schedule phase, then the completion phase). *)
+Fixpoint yield_tag {A} (c : comp A) (g : glob) : option Z :=
+  match c with
+  | Ret _ => None
+  | Yield t _ => Some t
+  | GetCache k => yield_tag (k (g_cache g)) g
+  | PutCache v k => yield_tag k (mkG (Some v) (g_stmts g) (g_reg g))
+  | GetStmt s k => yield_tag (k (lookup s (g_stmts g))) g
+  | PutStmt s v k => yield_tag k (mkG (g_cache g) (upsert s v (g_stmts g)) (g_reg g))
+  | GetReg k => yield_tag (k (g_reg g)) g
+  end.
+
+Fixpoint end_tags {A} (c : comp A) (g : glob) : list Z :=
+  match c with
+  | Ret _ => []
+  | Yield t k => t :: end_tags k g
+  | GetCache k => end_tags (k (g_cache g)) g
+  | PutCache v k => end_tags k (mkG (Some v) (g_stmts g) (g_reg g))
+  | GetStmt s k => end_tags (k (lookup s (g_stmts g))) g
+  | PutStmt s v k => end_tags k (mkG (g_cache g) (upsert s v (g_stmts g)) (g_reg g))
+  | GetReg k => end_tags (k (g_reg g)) g
+  end.
+
+Fixpoint trace_sched {A} (sched : list nat) (st : sstate A) : list (nat * Z) * sstate A :=
+  match sched with
+  | [] => ([], st)
+  | i :: s =>
+      let ev := match nth_error (fst st) i with
+                | Some c => match yield_tag c (snd st) with Some t => [(i, t)] | None => [] end
+                | None => []
+                end in
+      let (tr, st') := trace_sched s (step st i) in (ev ++ tr, st')
+  end.
+
+Fixpoint trace_drain {A} (i : nat) (ts : list (comp A)) (g : glob) : list (nat * Z) :=
+  match ts with
+  | [] => []
+  | c :: t => map (pair i) (end_tags c g) ++ trace_drain (S i) t (snd (to_end c g))
+  end.
+
+Definition trace {A} (sched : list nat) (st : sstate A) : list (nat * Z) :=
+  let (tr, st') := trace_sched sched st in tr ++ trace_drain 0 (fst st') (snd st').
+
 (* ------------------------------------------------------------------ *)
 (* Compilation                                                         *)
 
@@ -219,12 +265,13 @@ Definition FN_SUM : Z := 3.
 Definition FN_COUNT : Z := 4.
 Definition FN_FIRST : Z := 5.
 Definition FN_LAST : Z := 6.
+Definition FN_NULLODD : Z := 7.
 Definition FN_NOSUCH : Z := 99.
-Definition default_registry : list Z := [FN_VYIELD; FN_EMPTY; FN_SUM; FN_COUNT; FN_FIRST; FN_LAST].
+Definition default_registry : list Z := [FN_VYIELD; FN_EMPTY; FN_SUM; FN_COUNT; FN_FIRST; FN_LAST; FN_NULLODD].
 
 Definition in_reg (f : Z) (reg : list Z) : bool := existsb (Z.eqb f) reg.
 
-Definition yield_if {A} (b : bool) (k : comp A) : comp A := if b then Yield k else k.
+Definition yield_if {A} (b : bool) (k : comp A) : comp A := if b then Yield (-1) k else k.
 
 (* Where the placeholder names of this execution's statement are. *)
 Definition get_names {A} (share : option nat) (own : list phname) (k : list phname -> comp A) : comp A :=
@@ -251,14 +298,96 @@ Definition param_value (ps : params) (n : phname) : value + Z :=
 
 Definition cres := (expr + Z)%type.
 
+(* EvalBinaryOp on values: NULL short circuit *)
+Definition vbin (op : Z -> Z -> value) (a b : value) : value :=
+  match a, b with Some x, Some y => op x y | _, _ => None end.
+
+(* query_env.function wrapper on values: a NULL argument gives NULL *)
+Definition vfun (f : Z -> value) (a : value) : value :=
+  match a with Some x => f x | None => None end.
+
+Definition op_add (x y : Z) : value := Some (x + y).
+Definition op_lt (x y : Z) : value := b2v (x <? y).
+Definition f_empty (x : Z) : value := b2v (x =? 0).
+Definition f_nullodd (x : Z) : value := if Z.odd x then None else Some x.
+
+(* _binaryop: both operands, then constant folding when both are constants *)
+Definition cbin (mk : expr -> expr -> expr) (op : option (Z -> Z -> value)) (ca cb : comp cres) : comp cres :=
+  bind ca (fun ra =>
+    match ra with
+    | inr k => Ret (inr k)
+    | inl a' => bind cb (fun rb =>
+        match rb with
+        | inr k => Ret (inr k)
+        | inl b' =>
+            match op, a', b' with
+            | Some o, EConst x, EConst y => Ret (inl (EConst (vbin o x y)))
+            | _, _, _ => Ret (inl (mk a' b'))
+            end
+        end)
+    end).
+
+(* _function: operand, registry lookup, constant folding of pure functions *)
+Definition cfun (fname : Z) (mk : expr -> expr) (f : option (Z -> value)) (ca : comp cres) : comp cres :=
+  bind ca (fun ra =>
+    match ra with
+    | inr k => Ret (inr k)
+    | inl a' => GetReg (fun reg =>
+        if in_reg fname reg then
+          match f, a' with
+          | Some fn, EConst x => Ret (inl (EConst (vfun fn x)))
+          | _, _ => Ret (inl (mk a'))
+          end
+        else Ret (inr 3))
+    end).
+
+Definition agg_fname (f : aggf) : Z :=
+  match f with ASum => FN_SUM | ACount => FN_COUNT | AFirst => FN_FIRST | ALast => FN_LAST end.
+
+Fixpoint renumber (n : nat) (from : Z) : list phname :=
+  match n with O => [] | S m => PhInt from :: renumber m (from + 1) end.
+
+Definition has_key (m : list (Z * value)) (n : phname) : bool :=
+  match n with PhName k => match map_lookup k m with Some _ => true | None => false end | _ => false end.
+
 Section Compile.
 Variable fine : bool.
 Variable share : option nat.
-Variable own : list phname.     (* the names after this Compiler's own check/renumbering *)
 Variable ps : params.
 
+(* Compiler.compile, first part: the placeholder check; positional placeholders are
+   renumbered by writing [placeholder.name = i] on the statement. Returns the names
+   as this thread leaves them. *)
+Definition check_placeholders (own : list phname) : comp (list phname + Z) :=
+  get_names share own (fun names =>
+    match names with
+    | [] => Ret (inl [])
+    | _ =>
+      if forallb ph_truthy names then
+        match ps with
+        | PMap m => if forallb (has_key m) names then Ret (inl names) else Ret (inr 1)
+        | _ => Ret (inr 2)
+        end
+      else if forallb (fun n => negb (ph_truthy n)) names then
+        match ps with
+        | PSeq l =>
+            if Nat.eqb (length names) (length l) then
+              let names' := renumber (length names) 0 in
+              match share with
+              | None => Ret (inl names')
+              | Some s => yield_if fine (PutStmt s names' (yield_if fine (Ret (inl names'))))
+              end
+            else Ret (inr 1)
+        | _ => Ret (inr 2)
+        end
+      else Ret (inr 1)
+    end).
+
+Variable own : list phname.     (* the names after this Compiler's own check/renumbering *)
+
 (* Compiler._compile on an expression.  Order of the walk as in the code: operands
-   first (left to right), then the registry lookup, then constant folding. *)
+   first (left to right), then the registry lookup, then constant folding (a pure
+   function whose operands are all constants is CALLED at compile time). *)
 Fixpoint cexpr (e : expr) : comp cres :=
   match e with
   | EConst v => Ret (inl (EConst v))
@@ -278,44 +407,353 @@ Fixpoint cexpr (e : expr) : comp cres :=
             GetReg (fun reg =>
               if in_reg FN_VYIELD reg then
                 match a' with
-                | EConst None => Ret (inl (EConst None))            (* folded: NULL argument, function not called *)
-                | EConst (Some z) => Yield (Ret (inl (EConst (Some z))))   (* folded: called at compile time *)
+                | EConst None => Ret (inl (EConst None))                    (* folded; NULL argument: not called *)
+                | EConst (Some z) => Yield z (Ret (inl (EConst (Some z))))  (* folded: called at compile time *)
                 | _ => Ret (inl (EYield a'))
                 end
               else Ret (inr 3))
         end)
-  | EUnknown a =>
-      bind (cexpr a) (fun ra =>
-        match ra with
-        | inr k => Ret (inr k)
-        | inl a' => GetReg (fun reg => if in_reg FN_NOSUCH reg then Ret (inl (EUnknown a')) else Ret (inr 3))
-        end)
-  | EEmpty a =>
-      bind (cexpr a) (fun ra =>
-        match ra with
-        | inr k => Ret (inr k)
-        | inl a' => GetReg (fun reg => if in_reg FN_EMPTY reg then Ret (inl (EEmpty a')) else Ret (inr 3))
-        end)
-  | EAdd a b => cbin EAdd (cexpr a) (cexpr b)
-  | ELt a b => cbin ELt (cexpr a) (cexpr b)
-  | EAnd a b => cbin EAnd (cexpr a) (cexpr b)
+  | EUnknown a => cfun FN_NOSUCH EUnknown None (cexpr a)
+  | EEmpty a => cfun FN_EMPTY EEmpty (Some f_empty) (cexpr a)
+  | ENullOdd a => cfun FN_NULLODD ENullOdd (Some f_nullodd) (cexpr a)
+  | EAdd a b => cbin EAdd (Some op_add) (cexpr a) (cexpr b)
+  | ELt a b => cbin ELt (Some op_lt) (cexpr a) (cexpr b)
+  | EAnd a b => cbin EAnd None (cexpr a) (cexpr b)                 (* _and: no folding *)
   | EIn id a tgt whr =>
-      (* left, then the subquery: its targets, then its WHERE *)
+      (* left operand, then the subquery: its target, then its WHERE *)
       bind (cexpr a) (fun ra =>
         match ra with
         | inr k => Ret (inr k)
-        | inl a' =>
-          bind (cexpr tgt) (fun rt =>
-            match rt with
+        | inl a' => cbin (EIn id a') None (cexpr tgt) (cexpr whr)
+        end)
+  end.
+
+Fixpoint cexprs (l : list expr) : comp (list expr + Z) :=
+  match l with
+  | [] => Ret (inl [])
+  | e :: t =>
+      bind (cexpr e) (fun r =>
+        match r with
+        | inr k => Ret (inr k)
+        | inl e' => bind (cexprs t) (fun rt => match rt with inr k => Ret (inr k) | inl t' => Ret (inl (e' :: t')) end)
+        end)
+  end.
+
+Fixpoint caggs (l : list (aggf * expr)) : comp (list (aggf * expr) + Z) :=
+  match l with
+  | [] => Ret (inl [])
+  | (f, e) :: t =>
+      bind (cfun (agg_fname f) (fun x => x) None (cexpr e)) (fun r =>
+        match r with
+        | inr k => Ret (inr k)
+        | inl e' => bind (caggs t) (fun rt => match rt with inr k => Ret (inr k) | inl t' => Ret (inl ((f, e') :: t')) end)
+        end)
+  end.
+
+(* Compiler._select: targets first, then WHERE. *)
+Definition cquery (q : query) : comp (query + Z) :=
+  match q with
+  | QSelect ts w =>
+      bind (cexprs ts) (fun r =>
+        match r with
+        | inr k => Ret (inr k)
+        | inl ts' => bind (cexpr w) (fun rw => match rw with inr k => Ret (inr k) | inl w' => Ret (inl (QSelect ts' w')) end)
+        end)
+  | QAgg key aggs w =>
+      bind (cexpr key) (fun r =>
+        match r with
+        | inr k => Ret (inr k)
+        | inl key' =>
+          bind (caggs aggs) (fun ra =>
+            match ra with
             | inr k => Ret (inr k)
-            | inl t' =>
-              bind (cexpr whr) (fun rw =>
-                match rw with
-                | inr k => Ret (inr k)
-                | inl w' => Ret (inl (EIn id a' t' w'))
-                end)
+            | inl aggs' => bind (cexpr w) (fun rw => match rw with inr k => Ret (inr k) | inl w' => Ret (inl (QAgg key' aggs' w')) end)
             end)
         end)
-  end
-with cbin (mk : expr -> expr -> expr) (ca cb : comp cres) {struct ca} : comp cres := ca.
+  end.
 End Compile.
+
+Definition compile (fine : bool) (share : option nat) (ps : params) (s : stmt) : comp (query + Z) :=
+  bind (check_placeholders fine share ps (s_ph s)) (fun r =>
+    match r with
+    | inr k => Ret (inr k)
+    | inl names => cquery share ps names (s_query s)
+    end).
+
+(* ------------------------------------------------------------------ *)
+(* Evaluation                                                          *)
+
+(* The Row context of one table scan. *)
+Record ctx := mkC {
+  c_id : Z * Z;                 (* identity of the Row object: (thread, serial number of the scan) *)
+  c_rowid : Z;
+  c_bal : Z;                    (* Row.balance: the private running balance *)
+  c_memo : option (Z * Z);      (* NEW design: (balance_rowid, balance_value) *)
+  c_post : posting }.
+
+(* State on the compiled nodes of this execution. *)
+Record lst := mkL {
+  l_tid : Z;
+  l_nctx : Z;                                   (* table scans started so far by this thread *)
+  l_sub : list (nat * option (list value)) }.   (* EvalConstantSubquery1D.value per node; absent = MARKER *)
+
+Definition next_row (c : ctx) (p : posting) : ctx :=
+  mkC (c_id c) (c_rowid c + 1) (c_bal c) (c_memo c) p.
+
+Definition new_ctx (l : lst) : ctx * lst :=
+  (mkC (l_tid l, l_nctx l) 0 0 None (mkP 0 0 0), mkL (l_tid l) (l_nctx l + 1) (l_sub l)).
+
+Definition set_sub (id : nat) (r : option (list value)) (l : lst) : lst :=
+  mkL (l_tid l) (l_nctx l) (upsert id r (l_sub l)).
+
+Definition ev := (value * ctx * lst)%type.
+
+Section Eval.
+Variable fine : bool.
+Variable cached : bool.          (* OLD design: the module-level one-entry cache exists *)
+Variable rows : list posting.    (* the table (subqueries scan the same table) *)
+
+Definition advance (c : ctx) : Z := c_bal c + p_number (c_post c).
+
+Definition eval_balance (c : ctx) (l : lst) : comp ev :=
+  if cached then
+    (* lru_cache(maxsize=1)(balance)(context): key = the Row (hash = rowid, eq = identity) *)
+    let key := (fst (c_id c), snd (c_id c), c_rowid c) in
+    let miss :=
+      let b := advance c in
+      yield_if fine (PutCache (key, b)
+        (yield_if fine (Ret (Some b, mkC (c_id c) (c_rowid c) b (c_memo c) (c_post c), l)))) in
+    yield_if fine (GetCache (fun ce =>
+      match ce with
+      | Some (k, v) => if ckey_eqb k key then Ret (Some v, c, l) else miss
+      | None => miss
+      end))
+  else
+    (* memo on the Row itself *)
+    let hit := match c_memo c with Some (rid, v) => if rid =? c_rowid c then Some v else None | None => None end in
+    match hit with
+    | Some v => Ret (Some v, c, l)
+    | None => let b := advance c in Ret (Some b, mkC (c_id c) (c_rowid c) b (Some (c_rowid c, b)) (c_post c), l)
+    end.
+
+(* EvalBinaryOp.__call__: left; NULL -> NULL without evaluating right; right; NULL -> NULL *)
+Definition ebin (op : Z -> Z -> value) (ea : comp ev) (eb : ctx -> lst -> comp ev) : comp ev :=
+  bind ea (fun '(va, c, l) =>
+    match va with
+    | None => Ret (None, c, l)
+    | Some x => bind (eb c l) (fun '(vb, c, l) =>
+        match vb with None => Ret (None, c, l) | Some y => Ret (op x y, c, l) end)
+    end).
+
+Fixpoint eval (e : expr) (c : ctx) (l : lst) {struct e} : comp ev :=
+  match e with
+  | EConst v => Ret (v, c, l)
+  | ECol k => Ret (Some (getcol k (c_post c)), c, l)
+  | EBalance => eval_balance c l
+  | EParam _ => Ret (None, c, l)          (* does not survive compilation *)
+  | EYield a =>
+      (* query_env.function wrapper: arguments first; NULL -> NULL, function not called *)
+      bind (eval a c l) (fun '(v, c, l) =>
+        match v with None => Ret (None, c, l) | Some z => Yield z (Ret (Some z, c, l)) end)
+  | EUnknown a => eval a c l
+  | EEmpty a => bind (eval a c l) (fun '(v, c, l) => Ret (vfun f_empty v, c, l))
+  | ENullOdd a => bind (eval a c l) (fun '(v, c, l) => Ret (vfun f_nullodd v, c, l))
+  | EAdd a b => ebin op_add (eval a c l) (eval b)
+  | ELt a b => ebin op_lt (eval a c l) (eval b)
+  | EAnd a b =>
+      (* EvalAnd: NULL -> NULL, false -> FALSE, short circuit *)
+      bind (eval a c l) (fun '(va, c, l) =>
+        match va with
+        | None => Ret (None, c, l)
+        | Some x =>
+            if x =? 0 then Ret (b2v false, c, l) else
+            bind (eval b c l) (fun '(vb, c, l) =>
+              match vb with None => Ret (None, c, l) | Some y => Ret (b2v (negb (y =? 0)), c, l) end)
+        end)
+  | EIn id a tgt whr =>
+      bind (eval a c l) (fun '(va, c, l) =>
+        match va with
+        | None => Ret (None, c, l)
+        | Some _ =>
+          bind
+            (match lookup id (l_sub l) with
+             | Some r => Ret (r, l)
+             | None =>
+                 (* EvalConstantSubquery1D.__call__: execute_query(subquery) now, nested *)
+                 let (sc, l1) := new_ctx l in
+                 bind ((fix scan (rs : list posting) (sc : ctx) (l : lst) (acc : list value) {struct rs}
+                         : comp (list value * lst) :=
+                          match rs with
+                          | [] => Ret (acc, l)
+                          | p :: rs' =>
+                              let sc := next_row sc p in
+                              yield_if fine
+                                (bind (eval whr sc l) (fun '(w, sc, l) =>
+                                   if truthy w
+                                   then bind (eval tgt sc l) (fun '(v, sc, l) => scan rs' sc l (acc ++ [v]))
+                                   else scan rs' sc l acc))
+                          end) rows sc l1 [])
+                      (fun '(vals, l) =>
+                         let r := match vals with [] => None | _ => Some vals end in
+                         Ret (r, set_sub id r l))
+             end)
+            (fun '(r, l) =>
+               match r with
+               | None => Ret (None, c, l)
+               | Some vs => Ret (b2v (existsb (veqb va) vs), c, l)
+               end)
+        end)
+  end.
+
+Fixpoint evals (es : list expr) (c : ctx) (l : lst) : comp (list value * ctx * lst) :=
+  match es with
+  | [] => Ret ([], c, l)
+  | e :: t =>
+      bind (eval e c l) (fun '(v, c, l) =>
+        bind (evals t c l) (fun '(vs, c, l) => Ret (v :: vs, c, l)))
+  end.
+
+(* execute_select, non-aggregate branch *)
+Fixpoint select_loop (ts : list expr) (w : expr) (rs : list posting) (c : ctx) (l : lst)
+         (acc : list (list value)) : comp (list (list value)) :=
+  match rs with
+  | [] => Ret acc
+  | p :: rs' =>
+      let c := next_row c p in
+      yield_if fine
+        (bind (eval w c l) (fun '(wv, c, l) =>
+           if truthy wv
+           then bind (evals ts c l) (fun '(vs, c, l) => select_loop ts w rs' c l (acc ++ [vs]))
+           else select_loop ts w rs' c l acc))
+  end.
+
+(* aggregate stores: one per key, in insertion order *)
+Definition store := list value.
+
+Definition agg_init (f : aggf) : value :=
+  match f with ASum | ACount => Some 0 | AFirst | ALast => None end.
+
+(* the update() methods of the aggregators, in order, on one store *)
+Fixpoint agg_update (aggs : list (aggf * expr)) (st : store) (c : ctx) (l : lst)
+  : comp (store * ctx * lst) :=
+  match aggs, st with
+  | (f, e) :: t, s :: st' =>
+      bind
+        (match f with
+         | ASum => bind (eval e c l) (fun '(v, c, l) =>
+                     Ret (match v, s with Some x, Some y => Some (y + x) | _, _ => s end, c, l))
+         | ACount => bind (eval e c l) (fun '(v, c, l) =>
+                     Ret (match v, s with Some _, Some y => Some (y + 1) | _, _ => s end, c, l))
+         | AFirst => match s with
+                     | None => eval e c l
+                     | Some _ => Ret (s, c, l)
+                     end
+         | ALast => eval e c l
+         end)
+        (fun '(s', c, l) => bind (agg_update t st' c l) (fun '(st'', c, l) => Ret (s' :: st'', c, l)))
+  | _, _ => Ret ([], c, l)
+  end.
+
+Fixpoint find_store (k : value) (m : list (value * store)) : option store :=
+  match m with
+  | [] => None
+  | (k', s) :: t => if veqb k k' then Some s else find_store k t
+  end.
+
+Fixpoint put_store (k : value) (s : store) (m : list (value * store)) : list (value * store) :=
+  match m with
+  | [] => [(k, s)]
+  | (k', s') :: t => if veqb k k' then (k, s) :: t else (k', s') :: put_store k s t
+  end.
+
+(* execute_select, aggregate branch *)
+Fixpoint agg_loop (key : expr) (aggs : list (aggf * expr)) (w : expr) (rs : list posting) (c : ctx) (l : lst)
+         (m : list (value * store)) : comp (list (list value)) :=
+  match rs with
+  | [] => Ret (map (fun ks => fst ks :: snd ks) m)
+  | p :: rs' =>
+      let c := next_row c p in
+      yield_if fine
+        (bind (eval w c l) (fun '(wv, c, l) =>
+           if truthy wv
+           then bind (eval key c l) (fun '(kv, c, l) =>
+                  let st := match find_store kv m with Some s => s | None => map (fun fe => agg_init (fst fe)) aggs end in
+                  bind (agg_update aggs st c l) (fun '(st', c, l) =>
+                    agg_loop key aggs w rs' c l (put_store kv st' m)))
+           else agg_loop key aggs w rs' c l m))
+  end.
+
+Definition exec (tid : Z) (q : query) : comp result :=
+  let (c, l) := new_ctx (mkL tid 0 []) in
+  match q with
+  | QSelect ts w => bind (select_loop ts w rows c l []) (fun r => Ret (RRows r))
+  | QAgg key aggs w => bind (agg_loop key aggs w rows c l []) (fun r => Ret (RRows r))
+  end.
+End Eval.
+
+(* ------------------------------------------------------------------ *)
+(* Threads, schedules, results                                         *)
+
+(* Cursor.execute of thread [tid].
+   [astw]: Compiler.compile writes the numbering of positional placeholders on the parsed
+   statement object (the code as it stands; extracted by Gen/SharedState.v).  When it does
+   not, a parsed statement is never written and sharing it is immaterial.
+   [fine] adds yield points at every row and around every access to a shared cell
+   (finer than what the harness hook can drive). *)
+Definition thread (cells : list cell_id) (astw fine : bool) (tid : Z) (p : prog) : comp result :=
+  yield_if fine
+    (bind (compile fine (if astw then p_share p else None) (p_params p) (p_stmt p)) (fun r =>
+       match r with
+       | inr k => Ret (RErr k)
+       | inl q => exec fine (balance_cached cells) (p_rows p) tid q
+       end)).
+
+Fixpoint threads_from (cells : list cell_id) (astw fine : bool) (tid : Z) (ps : list prog) : list (comp result) :=
+  match ps with
+  | [] => []
+  | p :: t => thread cells astw fine tid p :: threads_from cells astw fine (tid + 1) t
+  end.
+
+Fixpoint init_stmts (ps : list prog) (acc : list (nat * list phname)) : list (nat * list phname) :=
+  match ps with
+  | [] => acc
+  | p :: t =>
+      init_stmts t (match p_share p with
+                    | Some k => match lookup k acc with Some _ => acc | None => acc ++ [(k, s_ph (p_stmt p))] end
+                    | None => acc
+                    end)
+  end.
+
+Definition init_glob (reg : list Z) (ps : list prog) : glob := mkG None (init_stmts ps []) reg.
+
+Definition run_full (cells : list cell_id) (astw fine : bool) (reg : list Z) (sched : list nat) (ps : list prog)
+  : list result * glob :=
+  run_state sched (threads_from cells astw fine 0 ps, init_glob reg ps).
+
+(* run : schedule -> programs -> results *)
+Definition run (cells : list cell_id) (astw fine : bool) (sched : list nat) (ps : list prog) : list result :=
+  fst (run_full cells astw fine default_registry sched ps).
+
+(* Serial execution: thread 0 to its end, then thread 1, ... *)
+Definition serial (cells : list cell_id) (astw fine : bool) (ps : list prog) : list result :=
+  run cells astw fine [] ps.
+
+(* The statement objects shared between threads are cells too. *)
+Definition shared_statements (ps : list prog) : list nat :=
+  flat_map (fun p => match p_share p with Some k => [k] | None => [] end) ps.
+
+(* ------------------------------------------------------------------ *)
+(* Output for the correspondence runner                                *)
+
+Definition o_value (v : value) : out := match v with None => OL [] | Some z => OL [ON z] end.
+
+Definition o_result (r : result) : out :=
+  match r with
+  | RRows rows => OL [ON 0; o_list (o_list o_value) rows]
+  | RErr k => OL [ON 1; ON k]
+  end.
+
+Definition run_out (cells : list cell_id) (astw : bool) (sched : list nat) (ps : list prog) : out :=
+  OL [o_list o_result (run cells astw false sched ps);
+      o_list (fun it => OL [o_nat (fst it); ON (snd it)])
+             (trace sched (threads_from cells astw false 0 ps, init_glob default_registry ps))].
